@@ -374,6 +374,16 @@ func genCase(t *rapid.T) Case {
 	methods := []string{"GET", "GET", "GET", "POST", "*", "get", "get,post", "GET, PUT", "autohead-get", "autohead-get", "any"}
 	n := rapid.IntRange(3, 25).Draw(t, "nops")
 	ah := false // AutoHead as the history has left it
+	if rapid.IntRange(0, 5).Draw(t, "wide") == 0 {
+		// a table with many entries for one method (more than any small fixed
+		// capacity): 9..14 static routes first, constraints on some of them later
+		for j, k := 0, rapid.IntRange(9, 14).Draw(t, "nwide"); j < k; j++ {
+			d := model.Route{Segs: []model.Seg{{Elems: []model.Elem{{Lit: fmt.Sprintf("w%d", j)}}}}}
+			g.Add("GET", d)
+			regs = append(regs, have{"GET", d.Source()})
+			c.Ops = append(c.Ops, Op{K: "reg", M: "GET", R: d.Source()})
+		}
+	}
 	lit := func() model.Seg {
 		return model.Seg{Elems: []model.Elem{{Lit: staticLits[rapid.IntRange(0, len(staticLits)-1).Draw(t, "sl")]}}}
 	}
